@@ -30,7 +30,7 @@ BOUND = {
 # as-built additions to the bound (kept next to BOUND so that the evidence reports them)
 BOUND = {k: v + "; plus: " + 'the same text in a second cell (other row / other language) and a reference-bearing neighbour cell emitted just before the cell under test' for k, v in BOUND.items()}
 
-FRAGS = ["<", ">", "&", '"', "'", "]]>", "&amp;", "&#60;", "&lt;", "<!--", "-->", "<![CDATA[",
+FRAGS = ["<", ">", "&", '"', "'", "]]>", "&amp;", "&#60;", "&lt;", "&quot;", "&nbsp;", "<!--", "-->", "<![CDATA[",
          '<output value="x"/>', "</label>", "{", "}", "$", "a", "é", "\U0001F600", "שלום", "a  b", " ", "-"]
 SIGNIFICANT = set("<>&\"']")
 CHANNELS = ["label", "hint", "guidance_hint", "constraint_message", "required_message", "glabel", "clabel",
